@@ -10,7 +10,11 @@ use crate::rng::{hash_str, Rng};
 use crate::run::{err_class, run_search, step_budget, Alg};
 use crate::searchcase::{gen_edge_od, gen_vertex_od, independent_edge_costs, route_cost};
 use crate::world::{gen_world, WorldParams};
-use serde_json::json;
+use crate::appgen::{build_app, AppSpec, OutputPlugin};
+use crate::hooks::catch;
+use routee_compass_core::model::cost::cost_aggregation::CostAggregation;
+use routee_compass_core::model::cost::vehicle::vehicle_cost_rate::VehicleCostRate;
+use serde_json::{json, Value};
 
 fn case(tier: Tier, rng: &mut Rng, rep: &mut Report) {
     let mut p = WorldParams::default();
@@ -188,12 +192,218 @@ fn case(tier: Tier, rng: &mut Rng, rep: &mut Report) {
     }
 }
 
+
+/// application-level slice: the same optimality oracle through CompassApp::run, with the objective given in the
+/// configuration only, in the query only (the configuration holds a decoy), or split between the two
+fn app_case(case_no: usize, rng: &mut Rng, rep: &mut Report) {
+    let mut p = WorldParams::default();
+    p.net.min_v = 5;
+    p.net.max_v = 24;
+    p.net.metric = true;
+    p.allow_turn_delay = false;
+    p.surcharges = false;
+    p.rich_cost = true;
+    let mut world = gen_world(rng, &p);
+    for (_, r) in world.cost.vehicle_rates.iter_mut() {
+        if let VehicleCostRate::Combined(_) = r {
+            *r = VehicleCostRate::Factor { factor: 2.5 };
+        }
+    }
+    let real = world.cost.clone();
+    let net = world.net.clone();
+    // reference costs under the objective the query asks for
+    let graph = std::sync::Arc::new(net.to_graph());
+    let si = match world.si(graph, &json!({})) {
+        Ok(s) => s,
+        Err(e) => {
+            rep.inconclusive(format!("could not build a search instance: {e}"));
+            return;
+        }
+    };
+    let cost = match independent_edge_costs(&world, &si) {
+        Ok(Some(c)) => c,
+        _ => {
+            rep.count("worlds_skipped_state_dependent_costs", 1);
+            return;
+        }
+    };
+    // what the configuration file says
+    let mode = rng.below(5);
+    let mode_name = ["config-only", "query-overrides-all", "query-overrides-weights", "query-overrides-rates", "query-overrides-aggregation"][mode];
+    let features: Vec<String> = real.weights.iter().map(|w| w.0.clone()).collect();
+    let decoy_weights = |rng: &mut Rng| -> Vec<(String, f64)> {
+        let mut w: Vec<(String, f64)> = features.iter().map(|f| (f.clone(), if rng.chance(0.3) { 0.0 } else { rng.frange(0.05, 4.0) })).collect();
+        if w.iter().all(|x| x.1 == 0.0) {
+            w[0].1 = 1.0;
+        }
+        w
+    };
+    let decoy_rates = |rng: &mut Rng| -> Vec<(String, VehicleCostRate)> {
+        features.iter().map(|f| (f.clone(), match rng.below(3) { 0 => VehicleCostRate::Raw, 1 => VehicleCostRate::Factor { factor: rng.frange(0.0, 30.0) }, _ => VehicleCostRate::Offset { offset: rng.frange(0.0, 50.0) } })).collect()
+    };
+    let mut cfg_cost = real.clone();
+    let mut over = serde_json::Map::new();
+    let weights_json = |w: &Vec<(String, f64)>| Value::Object(w.iter().map(|(k, v)| (k.clone(), json!(v))).collect());
+    let rates_json = |r: &Vec<(String, VehicleCostRate)>| Value::Object(r.iter().map(|(k, v)| (k.clone(), serde_json::to_value(v).unwrap_or(Value::Null))).collect());
+    match mode {
+        0 => {}
+        1 => {
+            cfg_cost.weights = decoy_weights(rng);
+            cfg_cost.vehicle_rates = decoy_rates(rng);
+            cfg_cost.agg = if rng.chance(0.5) { CostAggregation::Mul } else { CostAggregation::Sum };
+            over.insert("weights".into(), weights_json(&real.weights));
+            over.insert("vehicle_rates".into(), rates_json(&real.vehicle_rates));
+            over.insert("cost_aggregation".into(), json!("sum"));
+        }
+        2 => {
+            cfg_cost.weights = decoy_weights(rng);
+            over.insert("weights".into(), weights_json(&real.weights));
+        }
+        3 => {
+            cfg_cost.vehicle_rates = decoy_rates(rng);
+            over.insert("vehicle_rates".into(), rates_json(&real.vehicle_rates));
+        }
+        _ => {
+            cfg_cost.agg = CostAggregation::Mul;
+            over.insert("cost_aggregation".into(), json!("sum"));
+        }
+    }
+    // the algorithm: optionally an inadmissible configured weight factor that the query corrects
+    let wf_override = rng.chance(0.3);
+    let alg = if wf_override { Alg::AStar(Some(*rng.pick(&[3.0, 5.0, 25.0]))) } else { rng.pick(&[Alg::Dijkstra, Alg::AStar(None), Alg::AStar(Some(1.0)), Alg::AStar(Some(0.5)), Alg::AStar(Some(0.0))]).clone() };
+    if wf_override {
+        over.insert("weight_factor".into(), json!(*rng.pick(&[0.0, 0.5, 1.0])));
+    }
+    world.cost = cfg_cost;
+    let mut spec = AppSpec::basic(world.clone(), alg.clone());
+    spec.parallelism = rng.urange(1, 4);
+    // the json route format carries the per-edge access and traversal cost the search charged
+    spec.output_plugins = vec![OutputPlugin::Summary, OutputPlugin::Traversal { route: Some("json".into()), tree: None }];
+    let built = match catch(|| build_app(&spec, "c02")) {
+        Ok(Ok(b)) => b,
+        Ok(Err(e)) => {
+            rep.violate("C02|app|CompassApp::try_from|load-error", format!("well-formed configuration refused: {}", e.lines().next().unwrap_or("")), || json!({"toml": e}));
+            return;
+        }
+        Err(pm) => {
+            rep.violate(&format!("C02|app|CompassApp::try_from|{}", crate::hooks::panic_sig(&pm)), pm, || json!({}));
+            return;
+        }
+    };
+    let allowed = vec![true; net.ne()];
+    let mut queries = vec![];
+    let mut ods = vec![];
+    for i in 0..6 {
+        if let Od::Vertex(o, Some(d)) = gen_vertex_od(rng, &net, true) {
+            if o == d {
+                continue;
+            }
+            let mut q = serde_json::Map::new();
+            q.insert("qid".into(), json!(format!("a{case_no}q{i}")));
+            q.insert("origin_vertex".into(), json!(o));
+            q.insert("destination_vertex".into(), json!(d));
+            for (k, v) in &over {
+                q.insert(k.clone(), v.clone());
+            }
+            queries.push(Value::Object(q));
+            ods.push((o, d));
+        }
+    }
+    if queries.is_empty() {
+        return;
+    }
+    let out = catch(|| built.app.run(queries.clone(), None));
+    let responses = match out {
+        Ok(Ok(v)) => v,
+        Ok(Err(e)) => {
+            rep.violate("C02|app|run-returns-err", format!("run() failed: {e}"), || json!({"toml": built.toml, "batch": queries}));
+            return;
+        }
+        Err(pm) => {
+            rep.violate(&format!("C02|app|{}", crate::hooks::panic_sig(&pm)), pm, || json!({"toml": built.toml, "batch": queries}));
+            return;
+        }
+    };
+    // the same pairs without the overrides: shows how often the decoy objective would have chosen another route
+    let plain: Vec<Value> = queries
+        .iter()
+        .map(|q| {
+            let mut q = q.clone();
+            if let Some(o) = q.as_object_mut() {
+                for k in over.keys() {
+                    o.remove(k);
+                }
+            }
+            q
+        })
+        .collect();
+    let plain_paths: std::collections::HashMap<String, String> = match catch(|| built.app.run(plain, None)) {
+        Ok(Ok(v)) => v.iter().map(|r| (r["request"]["qid"].as_str().unwrap_or("").to_string(), format!("{:?}", r["route"]["path"].as_array().map(|a| a.iter().filter_map(|x| x["edge_id"].as_u64()).collect::<Vec<_>>()).unwrap_or_default()))).collect(),
+        _ => Default::default(),
+    };
+    for (q, (o, d)) in queries.iter().zip(&ods) {
+        rep.eval();
+        let qid = q["qid"].as_str().unwrap_or("");
+        let replay = || json!({"toml": built.toml, "query": q, "mode": mode_name, "world": world.to_json(), "objective_asked_for": {"weights": real.weights, "vehicle_rates": rates_json(&real.vehicle_rates), "aggregation": "sum"}, "independent_edge_costs": cost, "response": responses.iter().find(|r| r["request"]["qid"].as_str() == Some(qid))});
+        let r = match responses.iter().find(|r| r["request"]["qid"].as_str() == Some(qid)) {
+            Some(r) => r,
+            None => {
+                rep.violate("C02|app|query-not-answered", format!("no response for {qid}"), replay);
+                continue;
+            }
+        };
+        let ref_min = dijkstra(&net, &cost, &allowed, *o, true)[*d];
+        let sig_base = format!("C02|app|{}|{mode_name}", alg.family());
+        if let Some(e) = r.get("error") {
+            if ref_min.is_finite() {
+                rep.violate(&format!("{sig_base}|error-on-reachable"), format!("a path of cost {ref_min} exists but the query failed: {}", e.to_string().chars().take(300).collect::<String>()), replay);
+            } else {
+                rep.count("unreachable_pairs", 1);
+            }
+            continue;
+        }
+        let path: Vec<usize> = r["route"]["path"].as_array().map(|a| a.iter().filter_map(|x| x["edge_id"].as_u64().map(|v| v as usize)).collect()).unwrap_or_default();
+        if path.is_empty() || path.iter().any(|e| *e >= net.ne()) || net.edges[path[0]].src != *o || net.edges[*path.last().unwrap()].dst != *d {
+            rep.count("app_routes_with_unexpected_shape_(C01)", 1);
+            continue;
+        }
+        let indep: f64 = path.iter().map(|e| cost[*e]).sum();
+        // (route.cost.total_cost of the summary is the un-weighted cost in vehicle-rate units, a different quantity)
+        let reported: f64 = r["route"]["path"].as_array().map(|a| a.iter().map(|x| x["access_cost"].as_f64().unwrap_or(f64::NAN) + x["traversal_cost"].as_f64().unwrap_or(f64::NAN)).sum()).unwrap_or(f64::NAN);
+        if !rel_close(reported, indep, 1e-9, 1e-12) {
+            rep.violate(&format!("{sig_base}|reported-cost-differs-from-edge-costs"), format!("O2 route {path:?}: the response's per-edge access + traversal costs sum to {reported}, its edges cost {indep} under the objective the query asks for"), replay);
+            continue;
+        }
+        if !ref_min.is_finite() {
+            rep.violate(&format!("{sig_base}|route-for-unreachable"), format!("reference finds no path but route {path:?} was returned"), replay);
+            continue;
+        }
+        if indep > ref_min * (1.0 + 1e-9) + 1e-12 {
+            rep.violate(&format!("{sig_base}|suboptimal"), format!("O1 route {path:?} costs {indep} under the objective the query asks for, the minimum is {ref_min} ({}x)", indep / ref_min), replay);
+            continue;
+        }
+        rep.count("app_optimal_routes_confirmed", 1);
+        rep.seen("app_objective_modes", format!("{mode_name}{}", if wf_override { "+weight_factor" } else { "" }));
+        let changed = plain_paths.get(qid).map(|p| *p != format!("{:?}", path.iter().map(|e| *e as u64).collect::<Vec<_>>())).unwrap_or(false);
+        if changed {
+            rep.count("app_routes_that_differ_from_the_configured_(decoy)_objective", 1);
+        }
+        if has_costlier_alternative(&net, &cost, &allowed, *o, *d) {
+            rep.nontrivial(hash_str(&format!("app|{}|{}|{o}|{d}|{path:?}|{mode_name}", net.ne(), alg.family())));
+            if changed {
+                rep.sample(|| json!({"level": "application", "mode": mode_name, "algorithm": alg.name(), "query": q, "route": path, "cost": indep, "reference_min": ref_min, "route_under_configured_objective": plain_paths.get(qid)}));
+            }
+        }
+    }
+}
+
 pub fn run(tier: Tier, seed: u64) -> MonOut {
     let n = tier.n(40_000, 1_500_000);
-    let rep = par_cases(seed, n, |_i, rng, rep| case(tier, rng, rep));
+    // one case in 80 goes through the application (TOML configuration + query overrides)
+    let rep = par_cases(seed, n, |i, rng, rep| if i % 80 == 79 { app_case(i, rng, rep) } else { case(tier, rng, rep) });
     MonOut {
         report: rep,
-        rule: "generated networks (metric 75 %: length = repo haversine x (1+m) + 5..25 m; otherwise arbitrary positive lengths, sometimes co-located vertices) with distance or speed-table traversal in every distance x time x speed unit combination, random non-negative weights (positive sum, zeros included), vehicle rates raw / factor>=0 / offset>=0 / nested combined, per-edge surcharge tables, no access model; 8 origin/destination pairs per network (vertex or edge oriented, forward or reverse) each searched by Dijkstra and by A* (weight factor none/1/0.9/0.5/0 on metric networks, 0 otherwise). the route cost is compared with a reference Dijkstra over independently computed per-edge costs. non-trivial = an alternative o-d path with a different cost exists; distinct by (network, algorithm, od, direction, route, units)".into(),
+        rule: "generated networks (metric 75 %: length = repo haversine x (1+m) + 5..25 m; otherwise arbitrary positive lengths, sometimes co-located vertices) with distance or speed-table traversal in every distance x time x speed unit combination, random non-negative weights (positive sum, zeros included), vehicle rates raw / factor>=0 / offset>=0 / nested combined, per-edge surcharge tables, no access model; 8 origin/destination pairs per network (vertex or edge oriented, forward or reverse) each searched by Dijkstra and by A* (weight factor none/1/0.9/0.5/0 on metric networks, 0 otherwise). the route cost is compared with a reference Dijkstra over independently computed per-edge costs. application-level slice (1 case in 80): the same oracle through CompassApp::run with the objective in the TOML only, or a decoy objective in the TOML and the real one in the query (all of weights / vehicle_rates / cost_aggregation, or one of them), and an inadmissible configured weight_factor corrected by the query. non-trivial = an alternative o-d path with a different cost exists; distinct by (network, algorithm, od, direction, route, units)".into(),
         assumptions: vec![
             "per-edge state change taken from one real traverse_edge; weights, rates and surcharges are the generator's own values, so a search that ignores them disagrees with the oracle".into(),
             "worlds whose per-edge state change depends on the start state are outside the property's precondition and are skipped (counted)".into(),
